@@ -28,6 +28,7 @@ type Recorder struct {
 	BranchSegs Segs // what a tee branch has read so far
 	BranchDone bool
 	branchExp  int
+	Raw []byte // raw bytes kept by the "termraw" handler
 	EchoL, EchoR int // route whose real echo handler ran (0: none)
 	TeeAt      int // stream position at which the tee started (-1: no tee)
 
